@@ -734,6 +734,15 @@ class Interp:
             return date_binop(self, op, a, b, node)
         if isinstance(a, SObj) or isinstance(b, SObj):
             return self.obj_binop(op, a, b, node)
+        from .arrays import SArr, seq_concat, seq_repeat
+        if isinstance(a, SArr) or isinstance(b, SArr):
+            if op == 'add' and isinstance(a, (SArr, tuple, list)) and isinstance(b, (SArr, tuple, list)):
+                return seq_concat(self, a, b)
+            if op == 'mul':
+                seq, k = (a, b) if isinstance(a, SArr) else (b, a)
+                if is_intlike(k):
+                    return seq_repeat(self, seq, k)
+            self.raise_exc('TypeError', f'{op} on array', node)
         if isinstance(a, SSeq) or isinstance(b, SSeq):
             return SSeq.binop(self, op, a, b, node)
         if not sym.any_sym(a, b):
@@ -745,7 +754,9 @@ class Interp:
                 if op == 'mul' and isinstance(a, int) and not isinstance(a, bool):
                     return a * b
                 if op == 'mul' and isinstance(b, SInt):
-                    return SSeq.repeat(self, a, b)
+                    return seq_repeat(self, a, b)
+                if op == 'mul' and isinstance(a, SInt):
+                    return seq_repeat(self, b, a)
                 self.raise_exc('TypeError', f'{op} on sequences', node)
             if is_native(a) and is_native(b):
                 try:
@@ -762,7 +773,7 @@ class Interp:
         if isinstance(a, (tuple, list)) or isinstance(b, (tuple, list)):
             seq, k = (a, b) if isinstance(a, (tuple, list)) else (b, a)
             if op == 'mul' and isinstance(k, SInt):
-                return SSeq.repeat(self, seq, k)
+                return seq_repeat(self, seq, k)
             self.raise_exc('TypeError', f'{op} on sequence and scalar', node)
         if a is None or b is None:
             self.raise_exc('TypeError', f'unsupported operand None for {op}', node)
@@ -1081,6 +1092,8 @@ class Interp:
                     r = (not r) if isinstance(r, bool) else mk_bool(z3.Not(r.t))
             else:
                 r = self.compare(CMP_OPS[type(op)], left, right, node)
+                if r is False and os.environ.get('PYVC_DEBUG') in ('cmp', 'at'):
+                    print('CMP-FALSE', ast.unparse(node)[:80], '|', repr(left).replace(chr(10), ' ')[:160], '|', repr(right).replace(chr(10), ' ')[:160])
             if i == len(node.ops) - 1:
                 if result is True:
                     return r
@@ -1506,6 +1519,9 @@ class Interp:
             raise Unsupported('slice step', node)
         if isinstance(obj, SObj) and obj.cls.ntfields is not None:
             obj = obj.nt_items()
+        from .arrays import SArr, seq_slice
+        if isinstance(obj, SArr):
+            return seq_slice(self, obj, lo, hi, node)
         if isinstance(obj, SSeq):
             return obj.slice(self, lo, hi, node)
         if isinstance(obj, (tuple, list)):
